@@ -11,7 +11,7 @@ RULE = ("cases drawn per (algorithm x input class x presentation x configuration
         "non-trivial = n >= 2 and numbins >= 2; distinct on (algorithm, config, sorted values, numbins, presentation)")
 ASSUMPTIONS = ["values are non-negative ints with totals < 2^53", "rnp with numbins >= 6 only via the known-finding replay",
                "an exception on an in-quantifier input counts as a violation (DESIGN §3)"]
-FLOORS = {"quick": {"distinct_nontrivial": 2000}, "thorough": {"distinct_nontrivial": 20000}}
+FLOORS = {"quick": {"distinct_nontrivial": 1500}, "thorough": {"distinct_nontrivial": 8000}}
 
 CLASSES = ("small", "zeros", "equal", "ties", "kgtn", "big", "huge", "grid", "perfect", "powers", "onehuge")
 
